@@ -452,6 +452,14 @@ fn cases(thorough: bool) -> Vec<Case> {
     with("add-new||connect-purge", purge_cfg, purge_pre.clone(), vec![vec![a18.clone()], vec![c_purge.clone()]], none.clone(), pb);
     with("add-update||connect-purge", purge_cfg, purge_pre.clone(), vec![vec![a17big.clone()], vec![c_purge.clone()]], none.clone(), pb);
     with("get||connect-purge", purge_cfg, purge_pre.clone(), vec![vec![g17.clone()], vec![c_purge.clone()]], none.clone(), pb);
+    // ... and the dispute of the NEW appointment is already in the locator cache: the request that loses its user to the block must not
+    //     hand anything to the node (the owner check comes before the Responder)
+    let purge_pre_trigger = vec![
+        (AOp::Reg(1), none.clone()),
+        (a17.clone(), none.clone()),
+        (AOp::Connect { hash: 2012, txs: vec![8] }, none.clone()),
+    ];
+    with("add-trigger||connect-purge", purge_cfg, purge_pre_trigger.clone(), vec![vec![a18.clone()], vec![c_purge.clone()]], none.clone(), pb);
     // ---- the block at whose height the subscription expires (duration 2, grace 10: registered at 120, expiry 122,
     //      tip 121; block 122 makes the subscription expire and purges nobody).  While that block is being processed
     //      the gatekeeper is already at 122 and the watcher still at 121: the expiry test of a request that falls in
@@ -465,6 +473,14 @@ fn cases(thorough: bool) -> Vec<Case> {
     let c_expiry = AOp::Connect { hash: 2021, txs: vec![] };
     with("add-new||connect-expiry", expiry_cfg, expiry_pre.clone(), vec![vec![a18.clone()], vec![c_expiry.clone()]], none.clone(), pb);
     with("add-update||connect-expiry", expiry_cfg, expiry_pre.clone(), vec![vec![a17big.clone()], vec![c_expiry.clone()]], none.clone(), pb);
+    with(
+        "add-trigger||connect-expiry",
+        expiry_cfg,
+        vec![(AOp::Reg(1), none.clone()), (a17.clone(), none.clone()), (AOp::Connect { hash: 2025, txs: vec![8] }, none.clone())],
+        vec![vec![a18.clone()], vec![c_expiry.clone()]],
+        none.clone(),
+        pb,
+    );
     with("get||connect-expiry", expiry_cfg, expiry_pre.clone(), vec![vec![g17.clone()], vec![c_expiry.clone()]], none.clone(), pb);
     with("getsub||connect-expiry", expiry_cfg, expiry_pre.clone(), vec![vec![AOp::GetSub(1)], vec![c_expiry.clone()]], none.clone(), pb);
     with(
